@@ -554,7 +554,14 @@ fn download_case() -> impl Strategy<Value = DownloadCase> {
     ];
     // characters that survive an unescaped trip through a URL path (space and non-ASCII are percent-encoded by the client)
     let tail_archive = prop_oneof![Just("".to_string()), Just("_V06".to_string()), Just("_V06_MDM".to_string()), Just(".gz".to_string()), "[A-Za-z0-9_.\\-]{0,12}", Just(" v2".to_string()), Just("_é雷".to_string())];
-    let chunk_name = prop_oneof![4 => realistic_chunk_name(), 2 => "[A-Za-z0-9_\\-][A-Za-z0-9_.\\-]{0,19}", 1 => Just("20240804-101007-002-I copy".to_string()), 1 => Just("chunk-é-雷".to_string())];
+    let chunk_name = prop_oneof![
+        4 => realistic_chunk_name(),
+        2 => "[A-Za-z0-9_\\-][A-Za-z0-9_.\\-]{0,19}",
+        1 => Just("20240804-101007-002-I copy".to_string()),
+        1 => Just("chunk-é-雷".to_string()),
+        // characters that are legal in a URL path without escaping
+        2 => "[A-Za-z0-9][A-Za-z0-9+~()!*,;=:@$&']{1,16}",
+    ];
     (
         any::<bool>(),
         tail_archive,
@@ -617,6 +624,34 @@ pub fn run(ctx: &Ctx, rep: &mut Report) {
         classify_list,
         check_list,
     );
+    // the 1000-key boundary of an archive listing, every run: exactly 1000 objects are listed in full,
+    // 1001 objects come back truncated and must be an error
+    for n in [999usize, 1000, 1001] {
+        let c = ListCase {
+            archive: true,
+            year: 2024,
+            month: 2,
+            day: 29,
+            volume: 1,
+            names: (0..n).map(|i| format!("OBJ{:04}_V06", i)).collect(),
+            stamps: (0..n).map(|i| Stamp { secs: 1_700_000_000 + i as i64, frac_digits: 3, micros: 1000 * (i as u32 % 1000), zulu: true }).collect(),
+            sizes: (0..n).map(|i| i as u64).collect(),
+            decoys_before: vec![],
+            decoys_after: vec![],
+            max_keys: 100,
+            force_truncated: false,
+            pretty: n % 2 == 0,
+            extras: true,
+            fault: ListFault::None,
+            delivery: (n % 4) as u8,
+        };
+        let r = crate::runner::guard(|| check_list(&c)).unwrap_or_else(|p| Err(Fail::new("panic:oracle-or-code", p)));
+        if let Err(f) = r {
+            rep.record_failure("listings", f, serde_json::json!(c));
+        }
+    }
+    rep.enumerated("listing-1000-key-boundary", "archive listings of exactly 999, 1000 and 1001 objects (the last one is truncated by the simulator and must be an error)", 3, 3, true);
+    rep.sample("listing-1000-key-boundary", serde_json::json!({"objects": 1001}));
     rep.require_class("listings", "escaped-or-non-ascii-key", 100);
     rep.require_class("listings", "truncated", 20);
     rep.require_class("listings", "bad-size", 20);
